@@ -312,8 +312,32 @@ def _history(inst):
         except wasmref.Malformed as e:
             d, ok = str(e), False
         return None if ok else dict(kind="i32.const", v=v, bytes=bs, decoded=d)
+    def index(v, name="local.get"):
+        # the same value as the (unsigned) immediate of an instruction: local and function indices
+        buf = _io.BytesIO()
+        W.Instruction(W.opcodes[name], (v,)).WriteTo(buf)
+        bs = list(buf.getvalue())
+        r = wasmref.Reader(bs)
+        try:
+            op = r.cbyte()
+            d = r.uleb(32)
+            ok = op == W.opcodes[name] and d == v and r.eof()
+        except wasmref.Malformed as e:
+            d, ok = str(e), False
+        return None if ok else dict(kind=name + " immediate", v=v, bytes=bs, decoded=d)
+
     with shims.no_wasm_shims():
         for k, v in enumerate(vals):
+            # the value as an instruction immediate of the other signedness, in both orders, on values of their own (v + 3, v + 5)
+            for first, second, w in ((index, signed, v + 3), (signed, index, v + 5), (lambda x: index(x, "call"), signed, v + 7)):
+                for f in (first, second):
+                    if w > 2 ** 31 - 1:
+                        continue                       # not an i32 constant
+                    res["paths"] += 1
+                    b = f(w)
+                    if b:
+                        b["order"] = "index immediate first" if first is not signed else "i32.const first"
+                        bad.append(b)
             order = (unsigned, signed) if k % 2 == 0 else (signed, unsigned)
             for f in order:
                 res["paths"] += 1
